@@ -549,7 +549,17 @@ func (x *Exec) applyContract(st *State, fn *ssa.Function, spec *contract.FuncSpe
 		if e.Name == "rep" && !sameP {
 			continue
 		}
-		x.assume(st, env.evalBool(e.E))
+		if x.Mode == ModeUnwind && hasQuantExpr(e.E) && x.Driver != "" {
+			// (not even evaluated: reading a merged bit array at a symbolic index is expensive)
+			continue
+		}
+		c := env.evalBool(e.E)
+		if x.Mode == ModeUnwind && hasQuant(c) {
+			// unwinding keeps its queries quantifier-free: a postcondition that stays quantified
+			// (symbolic range) is not used there (dropping an assumption is sound)
+			continue
+		}
+		x.assume(st, c)
 	}
 	if x.LogCalls {
 		rec := CallRec{Fn: specKey(fn, spec), Args: args, Res: res, PC: st.PC, Pre: old}
